@@ -98,6 +98,21 @@ def f14(r):
 @fix("F13")  # C16: default limit pi is attained by exactly antiparallel tangents (after F7: every straight-through junction)
 def f13(r):
     patch(r, 'forsys/forsys.py', 'angle_limit=kwargs.get("angle_limit", np.pi),', 'angle_limit=kwargs.get("angle_limit", np.inf),')
+@fix("F8a")  # C10 part of F8 only: fix_one_stress rebound self.matrix, so a (failing) fix_stress call corrupted later solves
+def f8a(r):
+    patch(r, 'forsys/fmatrix.py', """            self.matrix = np.delete(self.matrix, max_index, 1)
+        else:
+            raise(NotImplementedError)
+        
+        mprime = self.matrix.T @ self.matrix
+        b = self.matrix.T @ b
+""", """            matrix = np.delete(self.matrix, max_index, 1)
+        else:
+            raise(NotImplementedError)
+        
+        mprime = matrix.T @ matrix
+        b = matrix.T @ b
+""")
 if __name__ == "__main__":
     root = sys.argv[1]
     for name in (sys.argv[2:] or list(FIXES)):
